@@ -1,5 +1,6 @@
 import Srtla.Model.Sys
 import Srtla.Model.Arm
+import Srtla.Model.Rx
 import Srtla.Drv.Util
 import Srtla.Drv.LinkCc
 /-! Driver for the `sys` component: the sender shell, one event per line (C01, C08, C09, C10, C14). -/
@@ -250,6 +251,9 @@ structure DS where
   /-- op `hkarm`: the weak-link filter and the per-link CC controller the event loop owns (`Model/Arm.lean`) -/
   cls : Srtla.Classifier.State := Srtla.Classifier.State.init
   ctl : Srtla.LinkCc.Ctl Float := []
+  /-- ops `rxpush` / `rxerr` / `rxrun` (`Model/Rx.lean`): the reader map and the packet channel of the receive side -/
+  socks : List Srtla.Rx.Sock := []
+  chan : List (Nat × List UInt8) := []
 
 def emptyD : DS := { s := empty }
 
@@ -309,5 +313,69 @@ def stepD (d : DS) (toks : List String) : DS × String :=
     -- start-up: a fresh filter and a fresh controller next to the fresh connections
     ({ d with s := s', created := n.toNat?.getD 0, cls := Srtla.Classifier.State.init, ctl := [] }, o)
   | _ => let (s', o) := step d.s toks; ({ d with s := s' }, o)
+
+/-! ## The receive side (`Model/Rx.lean`): ops `rxpush`, `rxerr`, `rxrun`, and the reader management of the arms -/
+
+/-- The packet channel as the harness observes it: per entry `conn id:length:digest`. -/
+def showChan (ch : List (Nat × List UInt8)) : String :=
+  "chan=[" ++ ",".intercalate (ch.map fun p => s!"{p.1}:{p.2.length}:{fnv p.2}") ++ "]"
+
+/-- `hex` or `N*hex` (N copies, 1 ≤ N ≤ 200). -/
+def parseRxSpec (t : String) : Option (List (List UInt8)) :=
+  match t.splitOn "*" with
+  | [h] => (parseHex h).map fun b => [b]
+  | [n, h] =>
+    match n.toNat?, parseHex h with
+    | some n, some b => if n = 0 || n > 200 then none else some (List.replicate n b)
+    | _, _ => none
+  | _ => none
+
+def rxOf (d : DS) : Srtla.Rx.Rx Float := { sys := d.s, socks := d.socks, chan := d.chan }
+
+def stepRx (d : DS) (toks : List String) : DS × String :=
+  if d.unmodelled then stepD d toks else
+  match toks with
+  | ["rxpush", cid, specs] =>
+    -- datagrams arrive at the CURRENT socket of uplink `cid` (sent to the real socket on the harness side); the reader
+    -- of `cid` then runs until the socket is empty (`recvmmsg` batches of at most 32)
+    match cid.toNat?, (specs.splitOn ",").mapM parseRxSpec with
+    | some cid, some dss =>
+      let ds := dss.flatten
+      if ds.length > 400 || ds.any (fun b => b.length > 4000) then (d, "bad-op") else
+      let r1 := ds.foldl (fun (r : Srtla.Rx.Rx Float) b => (Srtla.Rx.step r (.arrive cid b)).1) (rxOf d)
+      let r2 := (List.range (ds.length / 32 + 1)).foldl (fun (r : Srtla.Rx.Rx Float) _ => (Srtla.Rx.step r (.read cid)).1) r1
+      ({ d with socks := r2.socks, chan := r2.chan }, showChan r2.chan)
+    | _, _ => (d, "bad-op")
+  | ["rxerr", cid] =>
+    -- the reader of `cid` sees a receive error: the empty sentinel goes into the channel
+    match cid.toNat? with
+    | some cid =>
+      let r := (Srtla.Rx.step (rxOf d) (.rxErr cid)).1
+      ({ d with socks := r.socks, chan := r.chan }, showChan r.chan)
+    | none => (d, "bad-op")
+  | ["rxrun", now] =>
+    -- `drain_packet_queue` at clock `now`: at most 64 packets of the channel through the uplink arm
+    match now.toNat? with
+    | some now =>
+      let r := Srtla.Rx.step (rxOf d) (.drain fun _ => now)
+      let o : Out := r.2.foldl Out.append {}
+      ({ d with s := r.1.sys, socks := r.1.socks, chan := r.1.chan },
+       showOut (r.1.sys.links.map fun (l : L) => l.core.connId) o ++ " | " ++ showSys r.1.sys ++ " | " ++ showChan r.1.chan)
+    | none => (d, "bad-op")
+  | _ =>
+    let (d', o) := stepD d toks
+    if o == "bad-op" then (d', o) else
+    -- what the arms do to the readers: `handle_housekeeping` restarts the reader of every re-created socket and the
+    -- arm ends with `sync_readers`; a reload is followed by `sync_readers`; start-up spawns one reader per link
+    match toks with
+    | ["hk", now] | ["hkarm", now] =>
+      match now.toNat? with
+      | some now =>
+        let ids := Srtla.Rx.reconnected (Sys.step d.s .syncTimeout).1 now
+        ({ d' with socks := Srtla.Rx.syncReaders d'.s.links d'.s.io (Srtla.Rx.restartReaders d.socks ids) }, o)
+      | none => (d', o)
+    | "reload" :: _ => ({ d' with socks := Srtla.Rx.syncReaders d'.s.links d'.s.io d.socks }, o)
+    | "init" :: _ => ({ d' with socks := Srtla.Rx.syncReaders d'.s.links d'.s.io [], chan := [] }, o)
+    | _ => (d', o)
 
 end Srtla.Drv.SysDrv
